@@ -365,7 +365,7 @@ func fsmIndexName(r *fsmResult) string {
 	}
 	for _, v := range []ssa.Value{bo.X, bo.Y} {
 		if ph, ok := v.(*ssa.Phi); ok && ph.Block() == r.head {
-			return ph.Comment
+			return phiName(ph)
 		}
 	}
 	return ""
